@@ -233,10 +233,15 @@ def _combo_job(job):
             if ff:
                 note(ff, f"{base_name} byte {pos}={v}")
     # wiring bytes: every label index and the out-of-range boundary values, facades rebuilt
-    for pos in (ctor_bytes if sweep in (True, 'ctor') else ()):
+    for pos in (ctor_bytes if sweep in (True, 'ctor', 'eval') else ()):
         # (every shipped label list has fewer than 64 entries: 0..71 covers every label index and the first out-of-range
         #  values; the rest of the byte range is sampled at its boundaries)
         vals = sorted(set(list(range(0, 72 if full else 34)) + [63, 64, 127, 128, 200, 254, 255]))
+        if sweep == 'eval':
+            # log-version combinations: the devices a wiring label brings into being are built from the LOG table, so
+            # every label index of the items on this byte is tried here too (out-of-range values are the cfg sweeps' job)
+            nlab = max([len(acc[t].items) for t in ctor_tags if acc[t].pos <= pos < acc[t].pos + acc[t].length and acc[t].items] or [2])
+            vals = list(range(0, min(nlab, 64)))
         for v in vals:
             st.set_status_block(base[:pos] + bytes([v]) + base[pos + 1:])
             n += 1
